@@ -67,6 +67,8 @@ TreeComplaints(text, ro, t, par, head) ==
       e == Off(text, t.span[3], t.span[4])
       n == Len(text)
   IN IF t.span[1] < 1 \/ t.span[3] < 1 \/ s > n \/ e > n THEN << <<"span outside the input", t.span>> >>
+     \* a position names a place on its line: the column does not exceed the length of that line
+     ELSE IF t.span[2] > LineLen(text, t.span[1]) \/ t.span[4] > LineLen(text, t.span[3]) THEN << <<"span position beyond the end of its line", t.span>> >>
      ELSE IF e <= s THEN << <<"empty span", t.span>> >>
      ELSE LET slice == SubSeq(text, s + 1, e)
               r == ReadOne(slice, ro)
